@@ -29,7 +29,9 @@ ASSUMPTIONS = [
     "a side that cannot be computed un-optimised is skipped and counted (not a verdict)",
 ]
 
-EXCLUDE = ("KF-layout-drift-over-shuffle", "KF-minmax-empty")
+from vf import exclusions as _ex
+
+EXCLUDE = _ex.RAISES
 MAX_PAIRS = 14
 
 WEIGHTS = {"elemwise": 6, "elemwise2": 6, "shape": 12, "stack": 7, "index": 16, "rechunk": 10, "reduction": 9, "scan": 2, "window": 4, "map_blocks": 2, "linalg": 1}
